@@ -228,17 +228,18 @@ Example ex_C08_cycle_inhabited :
 Proof. vm_compute. repeat split; reflexivity. Qed.
 Print Assumptions ex_C08_cycle_inhabited.
 
-(** Finding F1, machine-checked on the model (which the C08 tie compares with the Rust library):
-    the grammar  cmd p(<A> <B>); <A> ::= a; <B> ::= b;  has two space-separated literals inside a
-    word through definitions ([subword_spaces] holds, no earlier class is present) and is
-    accepted for every shell; the same mistake written directly, or one definition deeper, is
-    rejected. *)
+(** Finding F1 (repaired in /repo by "fix: see literals through nonterminals when looking for
+    spaces inside a word"): the grammar  cmd p(<A> <B>); <A> ::= a; <B> ::= b;  has two
+    space-separated literals inside a word through definitions that are referenced directly in the
+    call variant; it used to be accepted, it is now rejected for every shell with the spans of
+    the two literals, like the same mistake written directly or one definition deeper, while the
+    legitimate juxtaposition  --opt=<X>; <X> ::= foo;  is still accepted. *)
 Definition ex_f1_word (inner : expr) : expr :=
   Subword (Sequence [Terminal "p" None 0 ex_sp; inner] ex_sp) 0 ex_sp.
 Definition ex_f1 : grammar :=
-  [ CallVariant "cmd" ex_sp (ex_f1_word (Sequence [NontermRef "A" 0 ex_sp; NontermRef "B" 0 ex_sp] ex_sp));
-    NontermDef "A" ex_sp None (Terminal "a" None 0 ex_sp);
-    NontermDef "B" ex_sp None (Terminal "b" None 0 ex_sp) ].
+  [ CallVariant "cmd" ex_sp (ex_f1_word (Sequence [NontermRef "A" 0 (mkspan 1 7 10); NontermRef "B" 0 (mkspan 1 11 14)] ex_sp));
+    NontermDef "A" ex_sp None (Terminal "a" None 0 (mkspan 2 9 10));
+    NontermDef "B" ex_sp None (Terminal "b" None 0 (mkspan 3 9 10)) ].
 Definition ex_f1_direct : grammar :=
   [ CallVariant "cmd" ex_sp (ex_f1_word (Sequence [Terminal "a" None 0 ex_sp; Terminal "b" None 0 ex_sp] ex_sp)) ].
 Definition ex_f1_deeper : grammar :=
@@ -246,15 +247,24 @@ Definition ex_f1_deeper : grammar :=
     NontermDef "C" ex_sp None (Sequence [NontermRef "A" 0 ex_sp; NontermRef "B" 0 ex_sp] ex_sp);
     NontermDef "A" ex_sp None (Terminal "a" None 0 ex_sp);
     NontermDef "B" ex_sp None (Terminal "b" None 0 ex_sp) ].
-Example ex_C08_F1_subword_spaces_missed :
+Definition ex_f1_juxtaposed : grammar :=
+  [ CallVariant "cmd" ex_sp (Subword (Sequence [Terminal "--opt=" None 0 ex_sp; NontermRef "X" 0 ex_sp] ex_sp) 0 ex_sp);
+    NontermDef "X" ex_sp None (Terminal "foo" None 0 ex_sp) ].
+Example ex_C08_F1_subword_spaces_behind_root_refs :
   present (fun _ => []) ex_f1 Bash = [MSubwordSpaces]
-  /\ forallb (fun sh => is_ok (from_grammar (fun _ => []) ex_f1 sh)) [Bash; Fish; Zsh; Pwsh] = true
+  /\ forallb (fun sh => match from_grammar (fun _ => []) ex_f1 sh with
+                        | Err (SubwordSpaces l r []) =>
+                            span_eqb l (mkspan 2 9 10) && span_eqb r (mkspan 3 9 10)
+                        | _ => false
+                        end) [Bash; Fish; Zsh; Pwsh] = true
   /\ present (fun _ => []) ex_f1_direct Bash = [MSubwordSpaces]
   /\ is_ok (from_grammar (fun _ => []) ex_f1_direct Bash) = false
   /\ present (fun _ => []) ex_f1_deeper Bash = [MSubwordSpaces]
-  /\ is_ok (from_grammar (fun _ => []) ex_f1_deeper Bash) = false.
+  /\ is_ok (from_grammar (fun _ => []) ex_f1_deeper Bash) = false
+  /\ present (fun _ => []) ex_f1_juxtaposed Bash = []
+  /\ is_ok (from_grammar (fun _ => []) ex_f1_juxtaposed Bash) = true.
 Proof. vm_compute. repeat split; reflexivity. Qed.
-Print Assumptions ex_C08_F1_subword_spaces_missed.
+Print Assumptions ex_C08_F1_subword_spaces_behind_root_refs.
 
 Example ex_C08_inhabited :
   no_call_variant ex_dup = false /\ varying_names ex_dup = false /\ slash_in_name ex_dup = false
